@@ -10,7 +10,7 @@
     formatter [F] writes for plan [p]; [planned o d p] = the planned commands as [Scanner.emit]
     reports them (the default delimiter stays in the text). *)
 From Coq Require Import List NArith ZArith Bool String.
-From Atlas Require Import Base.Bytes Lex.LexModel Lex.ClosedModel Lex.FmtModel Lex.QuoteModel Lex.QuoteProofs Lex.ClosedNLModel Lex.ClosedProofs Lex.FmtProofs Lex.FmtGooseProofs Lex.FmtHyp Lex.FmtImportModel Lex.FmtImportProofs Lex.FmtRefuted gen.Gen_ScanOpts.
+From Atlas Require Import Base.Bytes Lex.LexModel Lex.ClosedModel Lex.FmtModel Lex.QuoteModel Lex.QuoteProofs Lex.ClosedNLModel Lex.ClosedProofs Lex.FmtProofs Lex.FmtGooseProofs Lex.FmtHyp Lex.FmtImportModel Lex.FmtImportProofs Lex.ClosedBridgeModel Lex.ClosedBridgeProofs Lex.FmtBridgeForms Lex.FmtRefuted gen.Gen_ScanOpts.
 Import ListNotations.
 
 (** Full statement 3 (every identifier the builder quotes is a closed token) is FALSE of the
@@ -346,3 +346,31 @@ Example C07_import_file_nonvacuous :
   | _ => false
   end = true.
 Proof. vm_compute. reflexivity. Qed.
+
+(** The bridge from planner output to [scan_closed] (partial).  Full statement: every Cmd the three
+    planners emit is [scan_closed] for its dialect's scanner whenever its identifiers and literals
+    are closed tokens.  Proved: for STATEMENT SKELETONS (Lex/ClosedBridgeModel.v) — a command
+    assembled, as sqlx.Builder does, from fixed text of inert bytes without a BEGIN word, quoted
+    tokens, and balanced parentheses is closed ([skel_ok] decidable) — and, instantiated with the
+    quoting theorems, for two statement forms with EVERY name and EVERY comment text:
+      PostgreSQL  COMMENT ON TABLE "<name>" IS '<text>'      (name without the double quote)
+      MySQL       ALTER TABLE `<name>` COMMENT "<text>"       (name without back-quote and backslash).
+    Missing: that each statement form of the MySQL/PostgreSQL/SQLite planners is such a skeleton (the
+    planners are not modelled here); measured instead on every run: the extracted [scan_closed]
+    is evaluated on every real planner Cmd and the oracle class closed-but-not-roundtrip is armed. *)
+Theorem C07_bridge_partial :
+  (forall o ps, skel_ok o ps = true -> scan_closed o delimiter (render ps) = true)
+  /\ (forall name text, name <> [] -> ~ In 34%N name -> is_quoted text [39%N] = false ->
+        scan_closed opts_postgres delimiter (render (pg_comment_on_table name text)) = true)
+  /\ (forall np name text, name <> [] -> ~ In 96%N name -> ~ In 92%N name -> is_quoted text [34%N; 39%N] = false ->
+        scan_closed opts_mysql delimiter (render (mysql_alter_comment np name text)) = true).
+Proof.
+  split; [exact skel_closed|]. split; [exact pg_comment_on_table_closed|exact mysql_alter_comment_closed].
+Qed.
+Print Assumptions C07_bridge_partial.
+Example C07_bridge_nonvacuous :
+  render (pg_comment_on_table (bs "users"%string) (bs "it's; -- x"%string))
+    = bs "COMMENT ON TABLE ""users"" IS 'it''s; -- x'"%string
+  /\ skel_ok opts_mysql (create_table1 96 (bs "t;"%string) (bs "c"%string)) = true
+  /\ render (create_table1 96 (bs "t;"%string) (bs "c"%string)) = bs "CREATE TABLE `t;` (`c` integer NOT NULL)"%string.
+Proof. repeat split; vm_compute; reflexivity. Qed.
